@@ -18,6 +18,11 @@ def gen_gate_cases(ctx):
     def add(kind, n, ts, cs, style="generic"):
         c = mk_case(kind, rand_params(rng, kind), n, ts, cs, rand_vec(rng, n, style), 64)
         c["op"] = "gate_sched"; c["pools"] = pools; c["callers"] = 8 if ctx.thorough() else 4
+        try:
+            pl = placements(n, kind)
+            c["warm"] = [[list(a), list(b)] for a, b in rng.sample(pl, min(2, len(pl)))]       # earlier calls on the same thread
+        except Exception:
+            c["warm"] = []
         cases.append(c)
     for n in (1, 2, 3):
         for kind in KINDS:
@@ -48,6 +53,19 @@ def gen_gate_cases(ctx):
             ts, cs = rng.choice(con)
             for cs2 in ([cs[0]] * 2 + list(cs[1:]), list(cs) + [cs[-1]], [cs[0]] + list(cs) + [cs[0]]):
                 add(kind, n, list(ts), cs2)
+    # special parameter values in single positions (0, -0, pi, quarter turns): a shortcut taken on one path only shows here
+    from ..gatecases import NPARAMS
+    import math as _m
+    for kind in KINDS:
+        k = NPARAMS.get(kind, 0)
+        if not k or kind == "U2": continue
+        for pos in range(k):
+            for special in (0.0, -0.0, _m.pi, -_m.pi / 2, 2 * _m.pi):
+                n = rng.choice([3, 4])
+                ts, cs = rng.choice(placements(n, kind))
+                add(kind, n, list(ts), list(cs), style=rng.choice(["generic", "axis"]))
+                ps = [bits2float(x) for x in cases[-1]["params"]]; ps[pos] = special
+                cases[-1]["params"] = [float2bits(x) for x in ps]
     # invalid arguments too: the error value must be the same on both paths (SWAP with a repeated target: the
     # HashSet and the nested-loop duplicate detection)
     for n in (2, 3, 4):
